@@ -1,6 +1,7 @@
 package main
 
 import (
+	"time"
 	"sort"
 	"sync"
 	"github.com/zmap/zlint/v3/formattedoutput"
@@ -345,6 +346,17 @@ func init() {
 				for _, k := range []string{"cert", "crl", "ocsp"} {
 					nm := fmt.Sprintf("n_verif_private_%s_%d", k, i)
 					spt := &Script{Name: nm, Desc: "private lint (verification harness)", Cite: "none", Src: sc, Cfg: "none", App: "false", Exe: "res", ExeStatus: 3}
+					// dates of every magnitude: none, year 1, year 9999, year 10000, the far future of a 64-bit clock
+					switch i {
+					case 1:
+						spt.Eff = time.Date(1, 1, 1, 0, 0, 0, 1, time.UTC)
+					case 2:
+						spt.Eff, spt.Ineff = time.Date(9999, 12, 31, 23, 59, 59, 0, time.UTC), time.Date(10000, 1, 1, 0, 0, 0, 0, time.UTC)
+					case 3:
+						spt.Ineff = time.Unix(1<<60, 0)
+					case 4:
+						spt.Eff = time.Date(-5, 1, 1, 0, 0, 0, 0, time.UTC)
+					}
 					lg := []int{}
 					var err error
 					switch k {
